@@ -1272,7 +1272,11 @@ fn extreme_instance<F: Sc>(em: &mut Em, rng: &mut Rng) {
     let xw = w2(&x);
     let tl = tol_of::<F>();
     let res = catch_unwind(AssertUnwindSafe(|| Gmm::<F>::params_with_rng(kk, Xoshiro256Plus::seed_from_u64(seed)).init_method(init).reg_covariance(F::n(reg)).fit(&DatasetBase::from(x.clone()))));
-    let squares_overflow = !more_than_records && sc >= if is32::<F>() { 1e19 } else { 1e150 };
+    // the sum of squared distances k-means++ forms is bounded by n d (2 max|x|)^2: where that bound passes a
+    // quarter of the largest finite value of the scalar type the sum may overflow
+    let mxx = maxabs(&w2(&x));
+    let fmax = if is32::<F>() { f32::MAX as f64 } else { f64::MAX };
+    let squares_overflow = (x.len() as f64) * 4.0 * mxx * mxx > fmax / 4.0 || !(mxx * mxx).is_finite();
     let mut outcome = String::new();
     em.case(op, |ctx| match &res {
         Err(_) => {
